@@ -712,6 +712,26 @@ func (m *Manager) configureTasks(envId uid.ID, tasks Tasks) error {
 			return fmt.Errorf("task %s on %s has nil parent, this should never happen", task.GetClassName(), task.GetHostname())
 		}
 		taskPath := task.GetParentRolePath()
+
+		// Two inbound channels of the same task never share an endpoint, so they cannot share a
+		// global channel alias either. The task's local bindMap only holds the last claim on an
+		// alias, so this is checked on the channel declarations.
+		inboundChannels := task.GetParent().CollectInboundChannels()
+		if class := task.GetTaskClass(); class != nil {
+			inboundChannels = channel.MergeInbound(inboundChannels, class.Bind)
+		}
+		aliasOwners := make(map[string]string)
+		for _, inbCh := range inboundChannels {
+			if len(inbCh.Global) == 0 {
+				continue
+			}
+			if owner, claimed := aliasOwners[inbCh.Global]; claimed && owner != inbCh.Name {
+				return fmt.Errorf("workflow template contains illegal redefinition of global channel alias ::%s (channels %s and %s of task %s)",
+					inbCh.Global, owner, inbCh.Name, taskPath)
+			}
+			aliasOwners[inbCh.Global] = inbCh.Name
+		}
+
 		for inbChName, endpoint := range task.GetLocalBindMap() {
 			var bindMapKey string
 			if strings.HasPrefix(inbChName, "::") { // global channel alias
